@@ -108,6 +108,8 @@ def zernIndex(j):
     Returns:
         list: n, m values
     """
+    # (Python int: 8*(j-1)+1 would wrap around in a narrow NumPy integer type)
+    j = int(j)
     n = int((-1.+numpy.sqrt(8*(j-1)+1))/2.)
     p = (j-(n*(n+1))/2.)
     k = n%2
